@@ -113,6 +113,7 @@ impl Property for C02 {
         cov.states.add(whole.hash());
         let nfeeds = trace.steps.iter().filter(|s| matches!(s, Step::Feed(_))).count();
         cov.add("chunks", nfeeds as u64);
+        cov.nontrivial = Some(trace.bytes_total() >= 2 && (nfeeds >= 2 || trace.extra.first() == Some(&1)));
         match (trace.front, trace.utf8) {
             (Front::Chars, _) => cov.hit("front_parser_chars"),
             (Front::Bytes, true) => cov.hit("front_byteparser_utf8"),
